@@ -3,7 +3,7 @@
 # by tools/mutant.py and the quick tier must exit 1 with a signature that is not in known/C03.json.
 #   checks/c03.mutants.sh            all mutants, full quick tier each (slow: one zoo pass per mutant)
 cd /verif
-run() { echo "##### $1"; shift; /venv/bin/python tools/mutant.py "$@" C03 -- --jobs ${JOBS:-8} --wall ${WALLS:-3000} 2>&1 | grep -v conda | grep -E "^violation|RESULT|rc=|pattern|Error" | cut -c1-220; }
+run() { echo "##### $1"; shift; /venv/bin/python tools/mutant.py "$@" C03 -- --jobs ${JOBS:-8} 2>&1 | grep -v conda | grep -E "^violation|RESULT|rc=|pattern|Error" | cut -c1-220; }
 run M01-raft-broadcast-iterates-set-of-names --replace happysimulator/components/consensus/raft.py '        events: list[Event] = []
         for peer in self._peers:
             prev_log_index' '        events: list[Event] = []
